@@ -369,7 +369,6 @@ func c05Order(c *fw.Case) {
 	}
 }
 
-
 var c05ShapeKinds = []string{"distinct", "agg-all", "group", "union", "bigint"}
 
 // c05Shapes: the window is cut from the FINAL row sequence, also when that
